@@ -39,7 +39,7 @@ REQS = {
     "C15": ["DryRunFrame", "DeepByContent", "ExcludeFrame", "SelectionFrame"],
 }
 PROCS = int(os.environ.get("VERIF_PROCS", "16"))
-JOPTS = "-XX:ParallelGCThreads=2 -XX:CICompilerCount=2"     # many small single-worker TLC processes run side by side
+JOPTS = "-XX:ParallelGCThreads=2 -XX:CICompilerCount=2 -Xss32m"     # many small single-worker TLC processes run side by side
 
 
 def t_ns(rank):
@@ -123,11 +123,40 @@ def _write(path, data, rank):
     os.utime(path, ns=(t_ns(rank), t_ns(rank)))
 
 
+def expand(token):
+    """content token of the specification -> bytes.  "@<size>:<v>" is a LARGE content: <size> bytes of a fixed pattern (v = a) with the
+    first (f), middle (m) or last (z) byte changed; every other token is its own (latin-1) text"""
+    if token.startswith("@"):
+        size, v = token[1:].split(":")
+        b = bytearray((b"0123456789abcdef" * (int(size) // 16 + 1))[:int(size)])
+        if v != "a":
+            i = {"f": 0, "m": int(size) // 2, "z": int(size) - 1}[v]
+            b[i] = ord("X")
+        return bytes(b)
+    return token.encode("latin-1")
+
+
+_BIG = {}
+
+
+def contract(b):
+    """bytes -> content token (inverse of expand; unknown large contents become a digest token, never a huge string)"""
+    if len(b) < 4096:
+        return b.decode("latin-1")
+    if not _BIG:
+        for size in (20480, 71680):
+            for v in "afmz":
+                t = "@%d:%s" % (size, v)
+                _BIG[expand(t)] = t
+    return _BIG.get(b) or "@%d:?%s" % (len(b), __import__("hashlib").md5(b).hexdigest()[:8])
+
+
 def _write_dir(path, d):
     for n, r in d["f"].items():
-        if len(r["data"]) != r["size"]:
+        b = expand(r["data"])
+        if len(b) != r["size"]:
             raise core.MachineryError("content token %r does not have the size %d the specification assumes" % (r["data"], r["size"]))
-        _write(os.path.join(path, n), r["data"], r["mtime"])
+        _write(os.path.join(path, n), b, r["mtime"])
     for n, s in d["d"].items():
         os.mkdir(os.path.join(path, n))
         _write_dir(os.path.join(path, n), s)
@@ -184,7 +213,7 @@ def _obs_dir(path, top):
         else:
             with open(p, "rb") as fh:
                 b = fh.read()
-            d["f"][n] = {"data": b.decode("latin-1"), "size": len(b), "mtime": rank_of(os.stat(p).st_mtime_ns)}
+            d["f"][n] = {"data": contract(b), "size": len(b), "mtime": rank_of(os.stat(p).st_mtime_ns)}
     return d
 
 
@@ -328,7 +357,7 @@ def call_sync(case, src_root, dst_root, parallel=None, control_order=True, varia
                 kw["selection"] = ids if variant % 2 == 0 else [src.open_job(id=i) if os.path.isdir(os.path.join(src.workspace, i)) else i for i in ids]
         kw["check_schema"] = o["checkSchema"]
         par = o["parallel"] if parallel is None else parallel
-        kw["parallel"] = {"no": False, "two": 2, "all": True}[par]
+        kw["parallel"] = {"no": False, "two": 2, "three": 3, "all": True}[par]
     else:
         sp = sp_of(sps[o["jid"]])
         sjob, djob = src.open_job(sp), dst.open_job(sp)
@@ -581,7 +610,7 @@ def probe_deviations(ctx):
 # ---- seeded random deeper trees (code -> spec): inputs only; the judgement is TLC's --------------------------------
 FILE_NAMES = ["f1", "f2", "g1", "data.txt", "h"]
 DIR_NAMES = ["s", "t", "u"]
-CONTENTS = ["A", "B", "CC", "DD", "EEE", ""]
+CONTENTS = ["A", "B", "CC", "DD", "EEE", "", "@20480:a", "@20480:m", "@20480:f", "@20480:z", "@71680:a", "@71680:m"]
 
 
 def _rand_dir(rnd, depth, tags):
@@ -589,7 +618,7 @@ def _rand_dir(rnd, depth, tags):
     for n in FILE_NAMES + (["tags"] if tags else []):
         if rnd.random() < 0.45:
             c = rnd.choice(CONTENTS)
-            d["f"][n] = {"data": c, "size": len(c), "mtime": rnd.randint(1, 4)}
+            d["f"][n] = {"data": c, "size": len(expand(c)), "mtime": rnd.randint(1, 4)}
     if depth > 0:
         for n in DIR_NAMES:
             if rnd.random() < 0.35:
@@ -609,14 +638,15 @@ def _mutate_dir(rnd, s, depth, conflict):
         elif k < 0.6:
             d["f"][n] = dict(r, mtime=rnd.randint(1, 4))
         elif k < 0.6 + 0.3 * conflict:
-            c = rnd.choice([x for x in CONTENTS if x != r["data"]])
-            d["f"][n] = {"data": c, "size": len(c), "mtime": rnd.choice([r["mtime"], rnd.randint(1, 4)])}
+            same = [x for x in CONTENTS if x != r["data"] and len(expand(x)) == r["size"]]
+            c = rnd.choice(same) if same and rnd.random() < 0.6 else rnd.choice([x for x in CONTENTS if x != r["data"]])
+            d["f"][n] = {"data": c, "size": len(expand(c)), "mtime": rnd.choice([r["mtime"], r["mtime"], rnd.randint(1, 4)])}
         else:
             d["f"][n] = dict(r)
     for n in FILE_NAMES:
         if n not in s["f"] and n not in d["f"] and rnd.random() < 0.15:
             c = rnd.choice(CONTENTS)
-            d["f"][n] = {"data": c, "size": len(c), "mtime": rnd.randint(1, 4)}
+            d["f"][n] = {"data": c, "size": len(expand(c)), "mtime": rnd.randint(1, 4)}
     for n, sub in s["d"].items():
         k = rnd.random()
         if k < 0.6:
@@ -731,6 +761,37 @@ def random_case(rnd, prop, cid):
     return {"id": cid, "src": src, "dst": dst, "o": o, "pred": None, "feat": []}
 
 
+def scale_cases(rnd, prop, first_id):
+    """SCALE: many tiny jobs x parallel in {False, 2, 3, True}: every selected source job must be processed whatever the pool does with
+    the work list (inputs only; the expected destination is SyncFn's, job by job, decided by TLC in file mode)"""
+    out = []
+    plan = [(n, par) for n in (17, 21, 33) for par in ("no", "two", "three", "all")] + [(8 * (os.cpu_count() or 1) + 3, "all")]
+    for n, par in plan:
+        toks = ["q%03d" % i for i in range(n + 2)]
+        sps = {t: {"a": str(i)} for i, t in enumerate(toks)}
+
+        def job(c, m, doc):
+            return {"sp": True, "dir": {"f": {"f": {"data": c, "size": len(c), "mtime": m}}, "d": {}}, "doc": py_to_dv(doc), "dex": bool(doc), "dmt": 1 if doc else 0}
+        src = {"jobs": {t: job(rnd.choice("AB"), 1, {"k1": i % 3}) for i, t in enumerate(toks[:n])}, "pdoc": EMPTY_DOC, "pbak": False}
+        dst = {"jobs": {}, "pdoc": EMPTY_DOC, "pbak": False}
+        for i, t in enumerate(toks[:n]):
+            if i % 3 == 1:                           # common job: same file or an older differing one, compatible document
+                c = src["jobs"][t]["dir"]["f"]["f"]["data"]
+                dst["jobs"][t] = job(c if i % 2 else "CC", 1, {"k2": 1})
+        dst["jobs"][toks[n]] = job("A", 2, {"k1": 7})       # destination-only job
+        order = toks[:]
+        rnd.shuffle(order)
+        sel = {"on": False, "ids": []}
+        if len(out) % 4 == 3:
+            sel = {"on": True, "ids": sorted(rnd.sample(toks[:n], n - 4))}
+        o = {"strategy": "always", "custom": [], "docSync": "bykey", "keysel": [], "recursive": False,
+             "exclude": {"on": False, "names": []}, "selection": sel, "checkSchema": False, "deep": False, "dryRun": False,
+             "parallel": par, "entry": ["Project.sync", "sync_projects"][len(out) % 2], "jid": toks[0], "order": order,
+             "nord": sorted(["f", DOCFN, DOCFN + "~"]), "kord": ["k1", "k2", "old"], "sps": sps}
+        out.append({"id": first_id + len(out), "src": src, "dst": dst, "o": o, "pred": None, "feat": []})
+    return out
+
+
 def _paths(d, pfx, acc):
     for n in d["f"]:
         acc.add(tuple(pfx + [n]))
@@ -833,10 +894,10 @@ def selftest(ctx, prop, flags, work):
 NEED = {
     "C13": ["clone", "sync-existing", "leftonly-file", "leftonly-nested", "dst-only-file", "dst-only-key", "excluded-src-file",
             "unselected-src-job", "job-dst-absent", "multi-job", "empty-selection", "res:ok", "res:SchemaSyncConflict"],
-    "C14": ["diff-newer", "diff-older", "diff-eqtime", "diff-shallow-equal", "diff-nested", "doc-conflict", "doc-conflict-nested",
+    "C14": ["diff-newer", "diff-older", "diff-eqtime", "diff-shallow-equal", "diff-nested", "diff-large-before-last-block", "diff-large-last-byte", "doc-conflict", "doc-conflict-nested",
             "doc-conflict-with-mergeable-key", "doc-mixed-type", "doc-map-over-plain", "doc-mixed-type-nested", "stale-backup", "stale-backup-at-doc-conflict",
             "res:ok", "res:FileSyncConflict", "res:DocumentSyncConflict", "res:TypeError", "res:RuntimeError"],
-    "C15": ["clone", "sync-existing", "diff-shallow-equal", "diff-excluded", "excluded-src-file", "unselected-src-job", "multi-job",
+    "C15": ["clone", "sync-existing", "diff-shallow-equal", "diff-large-before-last-block", "diff-large-nested", "diff-large-last-byte", "diff-excluded", "excluded-src-file", "unselected-src-job", "multi-job",
             "job-dst-absent", "leftonly-nested", "doc-conflict-nested", "empty-selection"],
 }
 EXCUSABLE = {"C13": ["FilesArrive"], "C14": [], "C15": ["DryRunFrame", "DeepByContent", "ExcludeFrame"]}
@@ -927,6 +988,17 @@ def run_property(ctx, prop):
     for r in rrecs[:2]:
         ctx.sample({"source": "random deeper tree", "call": _describe(r), "src": r["src"], "dst": r["dst"], "post": r["post"],
                     "tlc": {k: rver[r["id"]][k] for k in ("why", "viol")}})
+    # 6. SCALE: many jobs x parallel in {False, 2, 3, True}; Superset / OrderConfluent on the real destination, job by job
+    if prop in ("C13", "C15"):
+        scases = scale_cases(rnd, prop, 2 * 10**9 + 10**6)
+        srecs = execute_all(ctx, scases, procs=4)
+        sver = validate(ctx, prop, flags, srecs, label="scale")
+        sstats = {}
+        judge(ctx, prop, flags, srecs, sver, "scale", sstats)
+        stats["scale"] = {"executions": len(srecs), "jobs": sorted({len(c["src"]["jobs"]) for c in scases}),
+                          "results": sstats.get("results"), "nonconformant": sstats.get("nonconformant", 0)}
+        if sstats.get("results", {}).get("ok", 0) != len(srecs) and not sstats.get("per_signature"):
+            raise core.MachineryError("scale cases are meant to return: %r" % sstats.get("results"))
     stats["random"] = {"executions": len(rrecs), "results": rstats.get("results"), "nonconformant": rstats.get("nonconformant", 0),
                        "per_signature": rstats.get("per_signature")}
     ctx.cov["sync"] = stats
